@@ -19,6 +19,7 @@ from __future__ import annotations
 
 import random
 import re
+import time
 import typing
 from typing import Any
 
@@ -187,15 +188,11 @@ def observe_module(groups: list[dict], checker: Any) -> list[dict]:
                                       f"{f.get('description')}\n{src}")
         per_line.setdefault(ln, []).append(f)
     hook_steps: dict[int, list[list[dict]]] = {}
-    if sink:
-        cur: dict[int, list[dict]] = {}
-        for ev in sink:
-            if ev["event"] == "OverloadBegin":
-                cur[ev["lineno"]] = []
-            elif ev["event"] == "OverloadStep":
-                cur.setdefault(ev["lineno"], []).append({"i": ev["index"] + 1, "c": ev["cls"]})
-            elif ev["event"] == "OverloadEnd":
-                hook_steps.setdefault(ev["lineno"], []).append(cur.pop(ev["lineno"], []))
+    for ev in sink or []:
+        if ev["event"] == "OverloadBegin":
+            hook_steps.setdefault(ev["lineno"], []).append([])
+        elif ev["event"] == "OverloadStep":
+            hook_steps.setdefault(ev["lineno"], [[]])[-1].append({"i": ev["index"] + 1, "c": ev["cls"]})
     out = [{"sigs": g["sigs"], "calls": [None] * len(g["calls"])} for g in groups]
     for ln, (g, k) in where.items():
         call = groups[g]["calls"][k]
@@ -208,7 +205,7 @@ def observe_module(groups: list[dict], checker: Any) -> list[dict]:
                 codes.append(name)
         if revealed is None:
             raise core.MachineryError(f"no reveal_type output on line {ln}\n{src}")
-        runs = hook_steps.get(ln) or _rec["by_line"].get(ln) or []
+        runs = hook_steps.get(ln) or _rec["by_line"].get(ln) or []      # the hook's events when /repo has the hook
         if not runs:
             raise core.MachineryError(f"OverloadedSignature.check_call was not reached on line {ln}\n{src}")
         steps = runs[-1]
@@ -276,22 +273,27 @@ def _adjudicate(observed: list[dict], lines_per_run: int, threads: int = 8) -> t
     return verdicts, stats
 
 
-def judge(check: core.Check, cases: list[dict], label: str, *, corrupt: Any = None) -> dict[str, int]:
+def judge(check: core.Check, cases: list[dict], label: str) -> dict[str, int]:
+    t0 = time.time()
     groups = group_cases(cases)
     per_batch = 6 * GROUPS_PER_MODULE
     batches = [groups[i : i + per_batch] for i in range(0, len(groups), per_batch)]
     observed = [o for part in core.pmap(observe_batch, batches, chunk=1) for o in part]
     for tid, o in enumerate(observed):
         o["tid"] = tid
-    if corrupt is not None:
-        corrupt(observed)
     ncalls = sum(len(o["calls"]) for o in observed)
+    t1 = time.time()
     lines_per_run = max(50, min(2000, (len(observed) + 7) // 8))
     verdicts, stats = _adjudicate(observed, lines_per_run)
+    PHASES.append({"what": label, "calls": ncalls, "real_checker_s": round(t1 - t0, 1), "tlc_adjudication_s": round(time.time() - t1, 1)})
     stats["observations"] = ncalls          # one observation = one real call checked by the real visitor
+    for o in observed:
+        for rec in o["calls"]:
+            for st in rec["steps"]:
+                REAL_STEP_CLASSES[st["c"]] = REAL_STEP_CLASSES.get(st["c"], 0) + 1
     check.add_trace_stats(stats)
     check.evals(ncalls)
-    tally = {"viol": 0, "dev": 0, "drift": 0, "oracle": 0}
+    tally = {"viol": 0, "dev": 0, "drift": 0}
     for o in observed:
         for rec in o["calls"]:
             if _nontrivial(rec):
@@ -309,16 +311,13 @@ def judge(check: core.Check, cases: list[dict], label: str, *, corrupt: Any = No
                 tally["dev"] += 1
                 check.violation(what[4:], what[4:], payload)
             elif what.startswith("oracle:"):
-                tally["oracle"] += 1
-                if corrupt is None:
-                    raise core.MachineryError(f"oracle model disagrees with real CPython ({what}) on {core.canon(case)}: "
-                                              f"pybind={rec['pybind']}")
+                raise core.MachineryError(f"oracle model disagrees with real CPython ({what}) on {core.canon(case)}: "
+                                          f"pybind={rec['pybind']}")
             else:
                 tally["drift"] += 1
                 check.drift({"verdict": what, **payload})
-    if corrupt is None:
-        for o in observed[:: max(1, len(observed) // 3)][:3]:
-            check.sample({"source": label, "sigs": o["sigs"], "first_call": o["calls"][0] if o["calls"] else None})
+    for o in observed[:: max(1, len(observed) // 3)][:3]:
+        check.sample({"source": label, "sigs": o["sigs"], "first_call": o["calls"][0] if o["calls"] else None})
     return tally
 
 
@@ -326,12 +325,15 @@ def judge(check: core.Check, cases: list[dict], label: str, *, corrupt: Any = No
 
 EXHAUSTIVE = {
     "quick": ["Overloads.q_types1.cfg", "Overloads.q_types2.cfg", "Overloads.q_kinds.cfg", "Overloads.q_defaults.cfg"],
-    "thorough": ["Overloads.t_types1.cfg", "Overloads.t_types2.cfg", "Overloads.t_kinds.cfg",
-                 "Overloads.t_defaults.cfg", "Overloads.t_four.cfg"],
+    "thorough": ["Overloads.t_types1.cfg", "Overloads.t_types2.cfg", "Overloads.t_types3.cfg", "Overloads.t_four.cfg",
+                 "Overloads.t_kinds.cfg", "Overloads.t_kinds2.cfg", "Overloads.t_defaults.cfg", "Overloads.t_defaults2.cfg"],
 }
 ACTIONS = ["AddParam", "CloseSig", "StartCall", "AddArg", "StartRun", "BindFilter_None", "BindFilter_Some",
            "Try_Error", "Try_Clean", "Try_Any", "Try_Union", "Try_UnionAny", "Finish_AnyRets", "Finish_NoMatch"]
-SENSITIVITY = [("Overloads.bug_anyfirst.cfg", "PropertyHolds"), ("Overloads.bug_nonarrow.cfg", "PropertyHolds")]
+PHASES: list[dict] = []
+REAL_STEP_CLASSES: dict[str, int] = {}     # second-pass branches the REAL loop took, over all observations
+SENSITIVITY = [("Overloads.bug_anyfirst.cfg", "PropertyHolds"), ("Overloads.bug_nonarrow.cfg", "PropertyHolds"),
+               ("Overloads.strict.cfg", "PropertyHoldsStrict")]
 
 
 def run(check: core.Check) -> None:
@@ -346,24 +348,20 @@ def run(check: core.Check) -> None:
         "from reveal_type",
         "the binder part of the oracle is validated against real CPython calls on every observation",
     ]
-    # 1. the design: the machine satisfies the property on every enumerated case; every action exercised
+    # 1. the design: the machine satisfies the property on every enumerated case
     cases: list[dict] = []
-    covered: dict[str, int] = {}
     for cfg in EXHAUSTIVE[check.tier]:
-        res = core.require_ok(core.run_tlc("OverloadsEmit", cfg, coverage=True, timeout=3000), "Overloads " + cfg)
+        res = core.require_ok(core.run_tlc("OverloadsEmit", cfg, seed=check.seed + 3, timeout=3000), "Overloads " + cfg)
         check.add_tlc("exhaustive:" + cfg, res)
-        for a in ACTIONS:
-            covered[a] = covered.get(a, 0) + res.coverage.get(a, (0, 0))[1]
         got = core.emitted_json(res)
         if not got:
             raise core.MachineryError(f"{cfg}: TLC emitted no cases")
-        for c in got:
-            c["slice"] = cfg
         cases += got
-    missing = [a for a in ACTIONS if not covered.get(a)]
-    if missing:
-        raise core.MachineryError(f"TLC coverage shows never-exercised actions: {missing}")
-    check.cov["action_coverage_total"] = covered
+    # vacuity: every action of the generator and of the machine is exercised (TLC -coverage is several times
+    # slower, so it is read back on a small slice that reaches every branch of the loop)
+    cov = core.require_ok(core.run_tlc("Overloads", "Overloads.cov.cfg", coverage=True, timeout=900), "Overloads coverage")
+    core.require_coverage(cov, ACTIONS, "Overloads.cov.cfg")
+    check.add_tlc("coverage:Overloads.cov.cfg", cov)
     # sensitivity: a plausible bug switched on in the model must violate the invariant
     for cfg, inv in SENSITIVITY:
         r = core.run_tlc("Overloads", cfg, timeout=600)
@@ -371,9 +369,16 @@ def run(check: core.Check) -> None:
             raise core.MachineryError(f"sensitivity self-test failed: {cfg} does not violate {inv} ({r.error})")
     check.cov["sensitivity"] = ("model with Bug=first_any_wins (an Any match returns the first overload, pyright's rule) and "
                                 "with Bug=no_narrow (the union argument is not narrowed after a partial match) violates "
-                                "PropertyHolds, as expected")
+                                "PropertyHolds; PropertyHoldsStrict (without the named deviation) is violated: the known "
+                                "deviation is real in the model")
+    if not quick:
+        # the repair proposed in /verif/proposed/C08-fix-1.diff, modelled by Bug=fix_any_last, removes the deviation
+        fx = core.run_tlc("Overloads", "Overloads.fixcheck.cfg", timeout=900)
+        check.add_tlc("fixcheck:Overloads.fixcheck.cfg", fx)
+        check.cov["fixcheck"] = ("model with the proposed repair satisfies PropertyHoldsStrict on the q_types2 slice"
+                                 if fx.ok else f"model with the proposed repair still violates: {fx.violated}")
     # 2. S->C: replay through the real visitor, adjudicated by TLC
-    limit = 110000 if quick else 1500000
+    limit = 110000 if quick else 800000
     uniq = {core.canon([c["sigs"], c["call"]]): c for c in cases}
     cases = list(uniq.values())
     check.cov["model_cases"] = len(cases)
@@ -389,6 +394,10 @@ def run(check: core.Check) -> None:
             picked.append(g)
             n += len(g["calls"])
         cases = [{"sigs": g["sigs"], "call": call} for g in picked for call in g["calls"]]
+    sampled_in_tlc = [cfg for cfg in EXHAUSTIVE[check.tier]
+                      if "EmitOneIn = 1\n" not in (core.SPEC / "mc" / cfg).read_text()]
+    exhaustive = exhaustive and not sampled_in_tlc
+    check.cov["replay_sampled_slices"] = sampled_in_tlc      # TLC checked every state; only 1 in EmitOneIn was emitted
     check.cov["exhaustive"] = exhaustive
     check.cov["replayed_cases"] = len(cases)
     check.cov["rule"] = (
@@ -397,7 +406,7 @@ def run(check: core.Check) -> None:
     )
     judge(check, cases, "tlc-exhaustive")
     # 3. beyond the exhaustive bound: TLC simulation of 2-4 overloads with every feature on
-    num = 1500 if quick else 60000
+    num = 1500 if quick else 20000
     sim = core.require_ok(
         core.run_tlc("OverloadsEmit", "Overloads.sim.cfg", workers=1 if quick else 4, simulate=f"num={num}", depth=40,
                      seed=check.seed + 8, timeout=2400),
@@ -409,6 +418,11 @@ def run(check: core.Check) -> None:
     if len(simc) < num // 4:
         raise core.MachineryError(f"simulation produced only {len(simc)} distinct cases")
     judge(check, list(simc.values()), "tlc-simulate")
+    missing = [c for c in ("error", "clean", "any", "union", "union_any") if not REAL_STEP_CLASSES.get(c)]
+    if missing:
+        raise core.MachineryError(f"the real loop never took the branches {missing} in the replayed cases")
+    check.cov["replay_phases"] = PHASES
+    check.cov["real_second_pass_branches"] = dict(sorted(REAL_STEP_CLASSES.items()))
     # 4. the binding itself: corrupted records must be flagged by TLC
     selftest_binding(check)
 
@@ -418,13 +432,6 @@ def replay(check: core.Check, witness: dict) -> None:
 
 
 # ------------------------------------------------------------------ binding self-test
-
-
-class _NullCheck:
-    """Stands in for core.Check while deliberately corrupted records are judged (nothing is reported)."""
-
-    def __getattr__(self, name: str) -> Any:
-        return lambda *a, **k: None
 
 
 _SELFTEST_CASES = [
@@ -437,24 +444,26 @@ _SELFTEST_CASES = [
 
 def selftest_binding(check: core.Check) -> None:
     """Corrupt one recorded field at a time and require TLC's verdict to flag exactly that."""
-    scratch = _NullCheck()
-
-    def expect(name: str, mutate: Any, key: str) -> None:
-        def corrupt(observed: list[dict]) -> None:
-            mutate(observed[0]["calls"])
-
-        tally = judge(scratch, _SELFTEST_CASES, "selftest", corrupt=corrupt)
-        if not tally[key]:
-            raise core.MachineryError(f"binding self-test: corrupted {name} was not flagged ({tally})")
-
-    clean = judge(scratch, _SELFTEST_CASES, "selftest", corrupt=lambda observed: None)
-    if any(clean.values()):
-        raise core.MachineryError(f"binding self-test: uncorrupted records are flagged ({clean})")
-    expect("revealed type of f(int)", lambda calls: calls[0]["real"].update(ty=[2]), "viol")
-    expect("revealed type of f(int|str)", lambda calls: calls[1]["real"].update(ty=[1]), "viol")
-    expect("revealed type of f(Any)", lambda calls: calls[2]["real"].update(ty=[1], anyk=""), "viol")
-    expect("verdict of f(None)", lambda calls: calls[3]["real"].update(st="ok"), "viol")
-    expect("second-pass steps of f(int|str)", lambda calls: calls[1]["steps"].reverse(), "drift")
-    expect("CPython binding of f(int)", lambda calls: calls[0].update(pybind=[True, False]), "oracle")
+    mutations = [
+        ("nothing", 0, lambda rec: None, None),
+        ("revealed type of f(int)", 0, lambda rec: rec["real"].update(ty=[2]), "viol:FirstMatch"),
+        ("revealed type of f(int|str)", 1, lambda rec: rec["real"].update(ty=[1]), "viol:UnionContains"),
+        ("revealed type of f(Any)", 2, lambda rec: rec["real"].update(ty=[1], anyk=""), "viol:AnyNeverSelectsOne"),
+        ("verdict of f(None)", 3, lambda rec: rec["real"].update(st="ok"), "viol:Verdict"),
+        ("second-pass steps of f(int|str)", 1, lambda rec: rec["steps"].reverse(), "drift:steps"),
+        ("CPython binding of f(int)", 0, lambda rec: rec.update(pybind=[True, False]), "oracle:binder"),
+    ]
+    group = {"sigs": _SELFTEST_CASES[0]["sigs"], "calls": [c["call"] for c in _SELFTEST_CASES]}
+    observed = observe_batch([group] * len(mutations))
+    for tid, (o, (_name, k, mutate, _want)) in enumerate(zip(observed, mutations)):
+        o["tid"] = tid
+        mutate(o["calls"][k])
+    verdicts, _stats = core.adjudicate("OverloadsTrace", "OverloadsTrace.cfg", observed, batch=10**9, timeout=600)
+    for tid, (name, k, _mutate, want) in enumerate(mutations):
+        got = verdicts.get(tid, [])
+        expected = [] if want is None else [f"{want}@{k + 1}"]
+        if got != expected:
+            raise core.MachineryError(f"binding self-test: corrupted {name}: TLC said {got}, expected {expected}")
     check.cov["binding_selftest"] = ("6 corrupted records (3 revealed types, 1 verdict, 1 step list, 1 CPython binding) "
-                                     "were each flagged by TLC (viol / drift / oracle); the uncorrupted records pass")
+                                     "were each flagged by TLC with the expected verdict (viol:<clause> / drift:steps / "
+                                     "oracle:binder); the uncorrupted record passes")
